@@ -188,16 +188,13 @@ pub fn optimize(code: Vec<UnOptCode>, level: u8) -> Result<(OptState, Vec<OptCod
     if level >= 1 {
         let mut dot_map: HashMap<usize, usize> = HashMap::new();
         let mut max: usize = 4;
-        let mut now = 3;
         let mut chk = Vec::new();
 
+        // a stack can only be popped while it is selected, and only `흑`
+        // selects: every stack some `흑` can select keeps a private slot
         for un_opt_code in &code {
-            if un_opt_code.get_type() == 0 {
-                continue;
-            }
-            chk.push(now);
             if un_opt_code.get_type() == 5 {
-                now = un_opt_code.get_dot_count();
+                chk.push(un_opt_code.get_dot_count());
             }
         }
 
